@@ -5,7 +5,7 @@
 (* / beyond the end of the file), its length, the chunk markers, what the name     *)
 (* resolves to.                                                                    *)
 (* VFBAD: the property is violated on the real cache.  VFDRIFT: the real client     *)
-(* did something else than RegistryPullCore (TrustSize TRUE, CountOnly FALSE:        *)
+(* did something else than RegistryPullCore (TrustSize, StaleMarkers TRUE; CountOnly FALSE: *)
 (* the code as it is) predicts for this plan and these faults.                     *)
 EXTENDS RegistryPullCore, Json, IOUtils
 
